@@ -100,6 +100,14 @@ func init() {
 		l := startLive(liveOpts{traceTo: a[2], noFilter: noFilter})
 		r := newRand(606)
 		var wg sync.WaitGroup
+		halfFrameConnections(l, 40)
+		if !wrap && !burstMode && !noFilter && !subpkgMode {
+			wg.Add(1)
+			go func() {
+				defer wg.Done()
+				stalledTransfer(l, nil)
+			}()
+		}
 		for c := 0; c < nconn; c++ {
 			ver := r.Intn(2)
 			phone := randPhone(r, ver)
@@ -206,6 +214,20 @@ func init() {
 						t.send(f)
 					}
 					_ = replies
+				}
+				if n <= 1000 && !burstMode {
+					// once the connection is quiet: a message that is answered, followed in the same write by one that is not.
+					// The reply comes without any further traffic.
+					for k, last := 0, int64(-1); k < 40 && last != t.nrecv.Load(); k++ {
+						last = t.nrecv.Load()
+						time.Sleep(120 * time.Millisecond)
+					}
+					n0 := t.nrecv.Load()
+					w := t.frame(0x0200, randBytes(rr, 28))
+					w = append(w, t.frame(0x0001, []byte{0, 1, 0x81, 0x03, 0})...)
+					t.send(w)
+					ok := t.waitRecv(n0+1, 4*time.Second)
+					l.rec.log(t.idx, "D", "assert", "ok", ok, "what", "ReplyWithheldUntilMoreTrafficArrives")
 				}
 				// sentinel: replies leave in order, so the sentinel's reply closes the conversation
 				sent := t.frame(0x0002, nil)
@@ -364,6 +386,19 @@ func init() {
 	}
 }
 
+// halfFrameConnections: a few connections that end in the middle of a frame (whatever a connection leaves behind is its own)
+func halfFrameConnections(l *live, n int) {
+	for k := 0; k < n; k++ {
+		d := l.dial([]byte{0x01, 0x0a, 0x0d, 0x00, byte(0x20 + k/100), byte(k % 100)}, 0)
+		f := d.frame(0x0200, make([]byte, 28))
+		d.send(append(d.frame(0x0002, nil), f[:len(f)/2+k]...))
+		time.Sleep(3 * time.Millisecond)
+		d.close(k%3 == 1)
+		time.Sleep(5 * time.Millisecond)
+	}
+	time.Sleep(40 * time.Millisecond)
+}
+
 func init() {
 	// live-c04 <trace>: segmentation over a real socket.  One connection; a short stream of frames whose bodies are full of
 	// bytes that line-oriented or text-minded code might treat specially (CR, LF, NUL, TAB, space, 0x7d/0x7e pairs) is sent
@@ -371,15 +406,7 @@ func init() {
 	cmds["live-c04"] = func(a []string) {
 		l := startLive(liveOpts{traceTo: a[0]})
 		phone := []byte{0x01, 0x0a, 0x0d, 0x00, 0x20, 0x09} // the phone field itself holds LF, CR, NUL, space, TAB (BCD digits 010a0d002009)
-		// first a few connections that end in the middle of a frame (whatever a connection leaves behind is its own)
-		for k := 0; k < 3; k++ {
-			d := l.dial([]byte{0x01, 0x0a, 0x0d, 0x00, 0x20, byte(0x10 + k)}, 0)
-			f := d.frame(0x0200, make([]byte, 28))
-			d.send(append(d.frame(0x0002, nil), f[:len(f)/2+k]...))
-			time.Sleep(3 * time.Millisecond)
-			d.close(k == 1)
-			time.Sleep(5 * time.Millisecond)
-		}
+		halfFrameConnections(l, 40)
 		t := l.dial(phone, 0)
 		t.serial = 0x0a0c // serials 0x0a0d.. : CR / LF inside the header as well
 		bodies := [][]byte{
